@@ -2,7 +2,7 @@
 """dev helper: mechanical single-token mutation survey.  Generates mutants of the non-test library source (comparison / arithmetic /
 boolean operators, small constants), filters those that compile, and runs every claimed QUICK check against each in a scratch worktree
 (checks from VERIF_CHECK_DIR or /verif).  A mutant nobody reports is either equivalent or a blind spot - the list is for reading.
-usage: tools_mutation_survey.py <out.jsonl> [--workers N] [--limit K] [--files a.rs,b.rs] [--seed S]"""
+usage: tools_mutation_survey.py <out.jsonl> [--workers N] [--limit K] [--files a.rs,b.rs] [--seed S] [--delete] [--residue-of earlier.jsonl]"""
 import json, os, random, re, shutil, subprocess, sys, tempfile, threading, queue
 V = "/verif"
 CHK = os.environ.get("VERIF_CHECK_DIR", V)
@@ -56,6 +56,10 @@ for p in paths:
                 muts.append((p, i, l, new, m.group(0) + "->" + rep.strip()))
 random.Random(seed).shuffle(muts)
 muts = muts[:limit]
+if "--residue-of" in sys.argv:   # re-run only the mutants an earlier survey found unreported
+    prev = [json.loads(x) for x in open(opt("--residue-of", ""))]
+    keep = {(r["file"], r["line"], r["kind"], r["new"]) for r in prev if r["compiles"] and not r["detected_by"]}
+    muts = [m for m in muts if (os.path.relpath(m[0], "/repo"), m[1] + 1, m[4], m[3].strip()) in keep]
 print(len(muts), "mutants over", len(paths), "files", flush=True)
 man = json.load(open(os.path.join(CHK, "MANIFEST.json")))
 claimed = [c["property_id"] for c in man["checks"]]
